@@ -154,6 +154,9 @@ def kernel? (toks : List String) : Option (Ext → R Int) :=
       let r ← I nr; let c ← I nc; let n ← I nval; let o ← I outlet; let cd ← L code; let fd ← L fdir
       let l ← L cells
       pure fun e => flowpathlengths e r c n o (intsF cd) (intsF fd) (intsF l)
+  | ["boundary", nr, nc, nval, cells, mask] => do
+      let r ← I nr; let c ← I nc; let n ← I nval; let l ← L cells; let m ← L mask
+      pure fun e => delineateBoundary e r c n (intsF l) (intsF m)
   | _ => none
 
 /-- grow the extent named by each out-of-bounds fault until the run is free of them -/
